@@ -1,7 +1,7 @@
 FILE = "asn1tools/codecs/per.py"
 
 fields("Encoder", number_of_bits=Nat, value=Nat, chunks_number_of_bits=Nat, chunks=AbsList)
-fixup("Encoder", "self.number_of_bits %= 4200\nself.value = self.value % (1 << self.number_of_bits)")
+fixup("Encoder", "self.number_of_bits %= 4200\nself.value = self.value % (1 << self.number_of_bits)\nself.chunks = []\nself.chunks_number_of_bits = 0")
 mutable("Encoder", "number_of_bits", "value", "chunks_number_of_bits", "chunks")
 invariant("Encoder", self.number_of_bits >= 0, 0 <= self.value, self.value < pow2(self.number_of_bits),
           self.chunks_number_of_bits >= 0)
@@ -120,6 +120,7 @@ def _(self, value: Nat):
                     and self.value == 128 * old(self.value) + (value - 1)))
     ensures(implies(value > 64, self.number_of_bits == old(self.number_of_bits) + 9
                     and self.value == 512 * old(self.value) + 256 + value))
+    ensures(self.chunks_number_of_bits == old(self.chunks_number_of_bits))
 
 
 @contract("Encoder.append_normally_small_non_negative_whole_number", props=["C05", "C01"])
@@ -131,6 +132,8 @@ def _(self, value: Nat):
     assigns(self)
     ensures(implies(value < 64, self.number_of_bits == old(self.number_of_bits) + 7
                     and self.value == 128 * old(self.value) + value))
+    ensures(self.chunks_number_of_bits + self.number_of_bits
+            >= old(self.chunks_number_of_bits) + old(self.number_of_bits) + 7)
 
 
 @contract("Encoder.append_bytes", props=["C05", "C01"])
